@@ -239,9 +239,21 @@ pub fn explore<O>(
 /// bound, for scenarios whose full tree is far too large (long genomes); used for support and per-leaf
 /// oracles only -- the leaf weights do not sum to 1.
 pub fn explore_bounded<O>(
+    scenario: impl FnMut(&mut Env) -> O,
+    visit: impl FnMut(&[Choice], O),
+    max_dev: usize,
+    cap: u64,
+) -> ExploreStats {
+    explore_bounded_h(scenario, visit, max_dev, usize::MAX, cap)
+}
+
+/// `explore_bounded` with a horizon: choice points beyond it are answered from the deterministic tail
+/// stream without branching (for subjects that may loop on the default word).
+pub fn explore_bounded_h<O>(
     mut scenario: impl FnMut(&mut Env) -> O,
     mut visit: impl FnMut(&[Choice], O),
     max_dev: usize,
+    horizon: usize,
     cap: u64,
 ) -> ExploreStats {
     let mut stats = ExploreStats::default();
@@ -250,10 +262,13 @@ pub fn explore_bounded<O>(
     let mut prefix: Vec<Choice> = Vec::new();
     loop {
         let mut env = Env::new(prefix.clone());
-        env.horizon = usize::MAX;
+        env.horizon = horizon;
         let obs = scenario(&mut env);
         if env.diverged.is_some() && stats.diverged.is_none() {
             stats.diverged = env.diverged.clone();
+        }
+        if env.beyond_horizon {
+            stats.beyond_horizon += 1;
         }
         stats.leaves += 1;
         stats.choice_points += env.trace.len() as u64;
